@@ -251,6 +251,9 @@ pub struct SpawnOpts {
     /// `Stdout::lock`, `stdout()`) keeps that thread - and only that thread - stopped for a
     /// pseudo-random time of up to the given number of microseconds: (max_us, seed)
     pub ptdelay: Option<(u32, u64)>,
+    /// run under `strace -e inject=read:error=EIO:when=N+`: from the N-th read system call of the
+    /// process on, every read fails with EIO - standard input is lost without an end of file
+    pub strace_read_fail_from: Option<u32>,
     /// which entry points `ptdelay` covers (default: standard output only)
     pub ptset: PtSet,
 }
@@ -268,7 +271,7 @@ pub enum PtSet {
 
 impl Default for SpawnOpts {
     fn default() -> Self {
-        SpawnOpts { env: vec![], pin_cpu: None, valgrind: false, strace_write_delay_us: None, ptdelay: None, ptset: PtSet::Stdout }
+        SpawnOpts { env: vec![], pin_cpu: None, valgrind: false, strace_write_delay_us: None, ptdelay: None, strace_read_fail_from: None, ptset: PtSet::Stdout }
     }
 }
 
@@ -278,6 +281,11 @@ impl Engine {
         let mut cmd = if opts.valgrind {
             let mut c = Command::new("valgrind");
             c.args(["--quiet", "--error-exitcode=97", "--leak-check=no", &format!("--log-file={}/valgrind.log", workdir.display())]);
+            c.arg(bin);
+            c
+        } else if let Some(n) = opts.strace_read_fail_from {
+            let mut c = Command::new("strace");
+            c.args(["-f", "-q", "-e", "trace=read", "-e", &format!("inject=read:error=EIO:when={}+", n), "-o", "/dev/null"]);
             c.arg(bin);
             c
         } else if let Some(us) = opts.strace_write_delay_us {
@@ -314,7 +322,7 @@ impl Engine {
         }
         let mut child = cmd.spawn().map_err(|e| format!("spawn {}: {}", bin.display(), e))?;
         let mut pid = child.id();
-        if opts.strace_write_delay_us.is_some() || (opts.ptdelay.is_some() && !opts.valgrind && ptdelay_tool(bin).is_some()) {
+        if opts.strace_write_delay_us.is_some() || opts.strace_read_fail_from.is_some() || (opts.ptdelay.is_some() && !opts.valgrind && ptdelay_tool(bin).is_some()) {
             // the engine is strace's (ptdelay's) child: /proc verdicts must look at the engine itself
             let t_end = Instant::now() + Duration::from_secs(2);
             loop {
